@@ -18,6 +18,7 @@ struct Item {
     prog: Option<Prog>,
     /// compile from this compressed description instead (handcrafted layouts)
     compressed: Option<Vec<u8>>,
+    tier: Tier,
 }
 
 #[derive(Default)]
@@ -39,8 +40,18 @@ fn prove_bytes(p: &Prover, prog: &Prog) -> Result<(Vec<u8>, Vec<Fe>), String> {
 }
 
 fn roundtrip(it: &Item, pp: &PublicParameters) -> Rep {
+    let t0 = std::time::Instant::now();
+    let rep = roundtrip_inner(it, pp);
+    if std::env::var("VERIF_PROFILE").is_ok() {
+        eprintln!("profile {} {:.2}s", it.name, t0.elapsed().as_secs_f64());
+    }
+    rep
+}
+
+fn roundtrip_inner(it: &Item, pp: &PublicParameters) -> Rep {
     let mut rep = Rep::default();
-    let label: &[u8] = if it.name.len() % 2 == 0 { b"" } else { b"c16-label" };
+    let label_v = e1::label_of(&it.name, it.tier, b"c16-label");
+    let label: &[u8] = &label_v;
     let keys = match (&it.prog, &it.compressed) {
         (_, Some(z)) => Compiler::compile_with_compressed(pp, label, z),
         (Some(p), None) => Compiler::compile_with_circuit(pp, label, p),
@@ -340,14 +351,14 @@ pub fn main(tier: Tier, replay: Option<serde_json::Value>) -> i32 {
     let full = crate::setup::pp((1usize << 13) + 64);
     let alpha = e1::alphabet();
     let mut items: Vec<Item> = vec![];
-    items.push(Item { name: "handcrafted/no-multiplication-gate".into(), prog: None, compressed: Some(no_mul_description()) });
+    items.push(Item { name: "handcrafted/no-multiplication-gate".into(), prog: None, compressed: Some(no_mul_description()), tier });
     for k in 3..=tier.pick(7usize, 10usize) {
         for c in [(1usize << k) - 7, (1 << k) - 6, (1 << k) - 1, 1 << k, (1 << k) + 1] {
             if c < 6 {
                 continue;
             }
-            items.push(Item { name: format!("sized/c{}/pi", c), prog: Some(sized(c, &Shape::Pi(vec![4, -1]))), compressed: None });
-            items.push(Item { name: format!("sized/c{}/custom-last", c), prog: Some(sized(c, &Shape::CustomLast(Fam::Xor))), compressed: None });
+            items.push(Item { name: format!("sized/c{}/pi", c), prog: Some(sized(c, &Shape::Pi(vec![4, -1]))), compressed: None, tier });
+            items.push(Item { name: format!("sized/c{}/custom-last", c), prog: Some(sized(c, &Shape::CustomLast(Fam::Xor))), compressed: None, tier });
         }
     }
     let progs = match tier {
@@ -359,7 +370,11 @@ pub fn main(tier: Tier, replay: Option<serde_json::Value>) -> i32 {
         Tier::Thorough => e1::programs(&alpha, 2, 0, 8),
     };
     for p in &progs {
-        items.push(Item { name: format!("program/{}", p.name), prog: Some(e1::program_prog(&alpha, p)), compressed: None });
+        items.push(Item { name: format!("program/{}", p.name), prog: Some(e1::program_prog(&alpha, p)), compressed: None, tier });
+    }
+    // labels of boundary lengths / contents (the prover stores its label behind a length field)
+    for (ln, _) in e1::label_menu(tier) {
+        items.push(Item { name: ln, prog: Some(sized(9, &Shape::Pi(vec![4, -1]))), compressed: None, tier });
     }
     if let Some(n) = &replay_name {
         items.retain(|i| &i.name == n);
